@@ -74,6 +74,10 @@ LqCall(cs, pend, t, o, extra) == LqClose(cs, [pend EXCEPT ![t] = o], extra)
 LqRet(cs, pend, t, r, extra) ==
     LqClose({[c EXCEPT !.done[t] = NotYet] : c \in {c \in cs : c.done[t] = r}}, [pend EXCEPT ![t] = NoOp], extra)
 
+\* an operation that reports "no effect, try again" (e.g. publishing a reserved slot before its turn): it never took effect
+LqRetCancel(cs, pend, t, extra) ==
+    LqClose({[c EXCEPT !.done[t] = NotYet] : c \in {c \in cs : c.done[t] = NotYet \/ ~c.done[t].ok}}, [pend EXCEPT ![t] = NoOp], extra)
+
 LqRetAny(cs, pend, t, extra) ==
     LqClose({[c EXCEPT !.done[t] = NotYet] : c \in {c \in cs : c.done[t] # NotYet}}, [pend EXCEPT ![t] = NoOp], extra)
 
